@@ -2,13 +2,15 @@
 From TxV Require Import Core.Base Model.PegSyntax Model.Peg.
 
 (* ---------------------------------------------------------------- the class *)
+Definition is_unord (k : kind) : bool := match k with KUnord => true | _ => false end.
 Definition node_ctx_free (nd : node) : bool :=
   match n_ws nd, n_skipws nd with
-  | None, None => negb (n_eolterm nd)
+  | None, None => negb (n_eolterm nd) && negb (is_unord (n_kind nd))
   | _, _ => false
   end.
 
-(* no node changes the whitespace context, and there is no comment model *)
+(* no node changes the whitespace context, and there is no comment model
+   (partial: unordered groups are also excluded, see design/C19.md) *)
 Definition ctx_constant (g : grammar) : bool :=
   forallb node_ctx_free (g_nodes g) && match g_comments g with None => true | Some _ => false end.
 
